@@ -104,6 +104,10 @@ def build_template(c, regs, hsm, log, use_factory=False, name_handled=False, fns
             if not hasattr(hsm, "_lookup"):
                 hsm._lookup = {}
             hsm._lookup.setdefault("s%d" % i, {})
+        if getattr(c, "reparented", None) and i in c.reparented:
+            # the design was re-nested before the chart was started: the state's parent is declared twice, the last declaration counts
+            decoy = c.reparented[i]
+            hsm.register_parent(fns[i], fns[decoy] if decoy else hsm.top)
         hsm.register_parent(fns[i], fns[c.parent[i]] if c.parent[i] else hsm.top)
     return fns, cbs
 
@@ -247,6 +251,15 @@ def explore(run, n_random, none_rate=0.0):
         start = rng.randrange(1, c.n + 1)
         evs = [rng.randrange(c.nsig) for _ in range(rng.randint(1, 6))]
         name_handled = rng.random() < 0.3
+        if rng.random() < 0.25:
+            c.reparented = {}
+            for i in range(1, c.n + 1):
+                if rng.random() < 0.4:
+                    options = [j for j in range(0, i) if j != c.parent[i]]      # (a smaller index: whichever declaration wins, the nesting stays a tree)
+                    if options:
+                        c.reparented[i] = rng.choice(options)
+            if c.reparented:
+                run.count("template chart with states whose parent was declared twice")
         if rng.random() < none_rate:
             # one callback returns no status: the chart is malformed, template build and hand-written build must both say so
             i0 = rng.choice(c.path(start)) if rng.random() < 0.7 else rng.randrange(1, c.n + 1)
@@ -259,6 +272,7 @@ def explore(run, n_random, none_rate=0.0):
     results = []
     for c, regs, start, evs, name_handled in cases:
         cj = {"chart": c.to_json(), "start": start, "events": evs, "name_handled": name_handled,
+              "reparented": {str(k): v for k, v in getattr(c, "reparented", {}).items()},
               "regs": {str(i): [list(x) for x in regs[i]] for i in regs}}
         hand = run_build(c, regs, "hand", start, evs)
         tmpl = run_build(c, regs, "template", start, evs, name_handled)
@@ -342,6 +356,8 @@ def explore(run, n_random, none_rate=0.0):
 def replay(case):
     cc = case.get("case", case)
     c = charts.GenChart.from_json(cc["chart"])
+    if cc.get("reparented"):
+        c.reparented = {int(k): v for k, v in cc["reparented"].items()}
     regs = {int(i): [tuple(x) for x in v] for i, v in cc["regs"].items()}
     for style in ("hand", "template", "flat", "template-shared", "template-bound", "template-other-design", "template-shared-other-tree"):
         r = run_build(c, regs, style, cc["start"], cc["events"], cc.get("name_handled", False))
